@@ -459,6 +459,16 @@ def gen_case(ctx, i):
     if r < 0.34:      # inside the hypotheses of C07_equiv_partial
         content = cg.gen_content(rng, all_vars_have_eq=True, p_ia_par=0.1, p_ia_var=0.15, p_param_names=0.3)
         stratum = "clean"
+        if rng.random() < 0.08:   # a parameter / derived value / reaction called like the derivative of a variable: refused
+            cands = [k for kind in ("pars", "derived", "rxns") for k, _ in content[kind]]
+            old, new = rng.choice(cands), f"d{rng.choice(content['vars'])[0]}dt"
+            for kind in ("pars", "derived", "rxns"):
+                content[kind] = [[new if k == old else k, v] for k, v in content[kind]]
+            for f in cg.all_fns(content):
+                f["args"] = [new if a == old else a for a in f["args"]]
+                if "params" in f:
+                    f["params"] = [new if a == old else a for a in f["params"]]
+            stratum = "derivative-name-taken"
     elif r < 0.46:
         content = cg.gen_content(rng, all_vars_have_eq=False, p_ia_par=0.0, p_ia_var=0.15)
         stratum = "noeq"
@@ -695,6 +705,7 @@ def classify(case, lang, ent, feats):
     # variables with one is repaired (it gets `d<x>dt = 0`) and judged like any other input
     if feats["no_eq"]:
         return "F-C07-3", True
+    # (F-C07-13, a component called like a generated derivative name d<x>dt, is repaired: generation refuses)
     return None, True
 
 
@@ -817,7 +828,7 @@ def judge_phase(ctx, case, R, M, extern=None, tag=""):
     if M is not None:
         # (a variable no reaction changes is inside the hypothesis since the repair of F-C07-12; "no equation at
         # all" = F-C07-3 is not)
-        in_scope = not (feats["dyn_coef"] or feats["no_eq"]) and len(case["content"]["vars"]) > 0
+        in_scope = not (feats["dyn_coef"] or feats["no_eq"] or feats["dname_clash"]) and len(case["content"]["vars"]) > 0
         if M["okC"] != in_scope:
             ctx.add_drift(sub_case(case, "py"), {"in_scope": in_scope}, {"okC": M["okC"]}, "hypothesis okC of C07_equiv_partial")
         ctx.hist["okC_true" if M["okC"] else "okC_false"] = ctx.hist.get("okC_true" if M["okC"] else "okC_false", 0) + 1
@@ -841,6 +852,12 @@ def judge_phase(ctx, case, R, M, extern=None, tag=""):
             ctx.judge(sc, ent.get("gen", {"ok": "text emitted"}), {"err": ["NotImplementedError"]},
                       Mg if Mg is None or "err" in Mg else {"ok": "text emitted"},
                       what=f"{lang}: free parameters with an initial-assignment parameter must be refused{tag}")
+            continue
+        if feats["dname_clash"] and not case.get("bad") and not (case["free"] and feats["ia_par"]):
+            # a component called like a generated derivative name d<x>dt: refused (F-C07-13, repaired)
+            ctx.judge(sc, ent.get("gen", {"ok": "text emitted"}), {"err": ["ValueError"]},
+                      Mg if Mg is None or "err" in Mg else {"ok": "text emitted"},
+                      what=f"{lang}: a component called like a derivative name must be refused{tag}")
             continue
         unknown = [k for k in case["free"] if k not in {p for p, _ in case["content"]["pars"]}]
         if unknown:
@@ -1070,6 +1087,12 @@ CORPUS = [
     {"content": {"vars": [["x", {"v": "1"}], ["y", {"v": "1"}]], "pars": [["k", {"v": "2"}]], "derived": [],
                  "rxns": [["r", {"args": ["x", "k"], "e": ["*", ["a", 0], ["a", 1]], "st": [["x", {"c": "-1"}], ["y", {"c": "1"}]]}]]},
      "free": ["k"], "states": [["0", ["3", "1"], ["3"]]], "stratum": "corpus"},
+    # F-C07-13 (repaired: refused): a reaction CALLED `dydt` next to the variable y: `dydt = k*x` was overwritten by
+    # `dydt = -b` before `dxdt = -dydt` read it (model [-3, -6], generated [-3, 3])
+    {"content": {"vars": [["y", {"v": "1"}], ["x", {"v": "2"}]], "pars": [["k", {"v": "3"}]], "derived": [],
+                 "rxns": [["b", {"args": ["y", "k"], "e": ["*", ["a", 0], ["a", 1]], "st": [["y", {"c": "-1"}]]}],
+                          ["dydt", {"args": ["x", "k"], "e": ["*", ["a", 0], ["a", 1]], "st": [["x", {"c": "-1"}]]}]]},
+     "free": [], "states": [["0", ["1", "2"], []]], "stratum": "corpus"},
     # a requested free parameter that is no parameter of the model: KeyError (C07_free_parameter_unknown)
     {"content": {"vars": [["x", {"v": "1"}], ["y", {"v": "1"}]], "pars": [["k", {"v": "2"}]], "derived": [],
                  "rxns": [["r", {"args": ["x", "k"], "e": ["*", ["a", 0], ["a", 1]], "st": [["x", {"c": "-1"}], ["y", {"c": "1"}]]}]]},
